@@ -43,7 +43,7 @@ type lbInst struct {
 	bindBool map[*ssa.Parameter]bool
 	bindStr  map[*ssa.Parameter]string // constant string arguments
 	bindByte map[*ssa.Parameter]byte   // constant byte arguments
-	alias    map[ssa.Value]string // "lexer", "file"
+	alias    map[ssa.Value]string      // "lexer", "file"
 	parent   *lbInst
 }
 
@@ -54,39 +54,39 @@ type lbOb struct {
 }
 
 type lbEngine struct {
-	w       *World
-	at      *atomTable
-	P, N    atomID
-	frames  []lbFrame
-	record  bool
-	obs     map[string]*lbOb
-	obOrder []string
-	text    map[token.Pos]string // source text of call/index/slice expressions by their ( or [ position
-	textSeq map[token.Pos]int    // occurrence number among identical texts in the same function
-	notes   []string
-	steps   int
-	trace   bool
-	visited map[*ssa.Function]bool
-	memo    map[string]*lstate
-	lostDumped bool
-	recorded   map[string]bool
-	scanNeed   map[string]int64 // C14/R10: terminator -> bytes of the opener the search must have left behind
-	scanFns    map[string]bool // functions whose loops are byte scans: checked for unit steps and exhaustive exits
-	progress   bool            // C03/R7: every loop iteration advances the cursor or a counter
-	tiling     bool            // C13/R4: track the Space/Raw/Pos/End stores of tokens and comments
-	tokProg    bool            // C13/R6: every return of the token readers has consumed at least one byte (or is at <eof>)
-	bytes      bool            // C03/R9: track what is known about single bytes of the buffer
-	inlineAlso map[string]bool // with shallow: cursor-moving methods that are followed all the same
-	foldEq     bool            // C16/R3: char.EqualFold returns true only for equal lengths, after the last index
-	split      bool            // C12/R5: SplitRawStatements over the contract of Lexer.NextToken (token fields as atoms)
-	tokLen     bool            // C06/R3: track Token.Kind / Token.AsString stores of the token reader; <param> spans '@' + its name
-	shallow    bool            // calls to lexer methods only move the cursor forward (not followed)
-	shallowLeaf bool           // ... except loop-free leaf helpers (skip, skipN, peek*), which are still inlined
-	rootPre    []string
-	owner   map[atomID]ssa.Value
-	live    map[*ssa.Function]map[*ssa.BasicBlock]map[ssa.Value]bool
-	moves   map[*ssa.Function]int
-	loops   map[*ssa.Function][]*natLoop
+	w           *World
+	at          *atomTable
+	P, N        atomID
+	frames      []lbFrame
+	record      bool
+	obs         map[string]*lbOb
+	obOrder     []string
+	text        map[token.Pos]string // source text of call/index/slice expressions by their ( or [ position
+	textSeq     map[token.Pos]int    // occurrence number among identical texts in the same function
+	notes       []string
+	steps       int
+	trace       bool
+	visited     map[*ssa.Function]bool
+	memo        map[string]*lstate
+	lostDumped  bool
+	recorded    map[string]bool
+	scanNeed    map[string]int64 // C14/R10: terminator -> bytes of the opener the search must have left behind
+	scanFns     map[string]bool  // functions whose loops are byte scans: checked for unit steps and exhaustive exits
+	progress    bool             // C03/R7: every loop iteration advances the cursor or a counter
+	tiling      bool             // C13/R4: track the Space/Raw/Pos/End stores of tokens and comments
+	tokProg     bool             // C13/R6: every return of the token readers has consumed at least one byte (or is at <eof>)
+	bytes       bool             // C03/R9: track what is known about single bytes of the buffer
+	inlineAlso  map[string]bool  // with shallow: cursor-moving methods that are followed all the same
+	foldEq      bool             // C16/R3: char.EqualFold returns true only for equal lengths, after the last index
+	split       bool             // C12/R5: SplitRawStatements over the contract of Lexer.NextToken (token fields as atoms)
+	tokLen      bool             // C06/R3: track Token.Kind / Token.AsString stores of the token reader; <param> spans '@' + its name
+	shallow     bool             // calls to lexer methods only move the cursor forward (not followed)
+	shallowLeaf bool             // ... except loop-free leaf helpers (skip, skipN, peek*), which are still inlined
+	rootPre     []string
+	owner       map[atomID]ssa.Value
+	live        map[*ssa.Function]map[*ssa.BasicBlock]map[ssa.Value]bool
+	moves       map[*ssa.Function]int
+	loops       map[*ssa.Function][]*natLoop
 }
 
 // lbRootPre: preconditions of roots that are interpreted without a calling context.
